@@ -118,6 +118,12 @@ def by_name(values: Dict[str, int], calls: Optional[Dict[str, int]] = None) -> C
     def repl(a: Tuple[Any, ...]) -> Optional[Poly]:
         if a[0] == "var" and a[1] in values:
             return C(values[a[1]])
+        if a[0] == "mcall" and a[2]:
+            from .normal import show as _sh
+
+            q = f"{_sh(a[2][0])}.{a[1]}"
+            if q in calls:
+                return C(calls[q])
         if a[0] in ("call", "mcall") and a[1] in calls:
             return C(calls[a[1]])
         return None
